@@ -313,6 +313,12 @@ def alternating(c: HistCase) -> bool:
     return False
 
 
+# bitproto's process-global caches are deliberately never cleared: they persist across the cases
+# of a worker process.  The count of operations executed earlier in this process goes into every
+# violation message (a replay runs the case alone in a fresh process).
+_OPS_BEFORE = 0
+
+
 def run_hist_case(c: HistCase, stats: Stats) -> None:
     root = env.scratch_dir("h")
     try:
@@ -322,6 +328,7 @@ def run_hist_case(c: HistCase, stats: Stats) -> None:
 
 
 def _run_hist(c: HistCase, stats: Stats, root: str) -> None:
+    global _OPS_BEFORE
     # where each schema lives: twins of a group share the directory iff same_path
     slot: Dict[int, str] = {}
     for i, sc in enumerate(c.pool):
@@ -418,13 +425,14 @@ def _run_hist(c: HistCase, stats: Stats, root: str) -> None:
         if want[0] != 0:
             stats.inconclusive_("fresh-process compile failed")
         info.update({"history": done, "schema": i, "options": o.text(), "differs": sc.differs})
-        compare(want, got, f"fresh process: bitproto {o.text()} {sc.main}", f"step {n} {op.text()} after {n} earlier operations in the same process", info)
+        compare(want, got, f"fresh process: bitproto {o.text()} {sc.main}", f"step {n} {op.text()} after {n} earlier operations of this history (+{_OPS_BEFORE} of earlier cases) in the same process", info)
+    _OPS_BEFORE += len(c.ops)
     if alt:
         stats.mark_nontrivial(digest, [o.text() for o in c.ops])
     stats.sample({"pool": [{"main": s.main, "group": s.group, "differs": s.differs} for s in c.pool], "same_path": c.same_path, "history": [o.text() for o in c.ops]})
 
 
 PARTS = [
-    HypPart("fresh", lambda tier: fresh_cases(), run_fresh_case, {"quick": 160, "thorough": 3200}, describe=describe_fresh),
-    HypPart("history", lambda tier: hist_cases(), run_hist_case, {"quick": 128, "thorough": 2560}, describe=describe_hist),
+    HypPart("fresh", lambda tier: fresh_cases(), run_fresh_case, {"quick": 208, "thorough": 4160}, describe=describe_fresh),
+    HypPart("history", lambda tier: hist_cases(), run_hist_case, {"quick": 144, "thorough": 2880}, describe=describe_hist),
 ]
